@@ -64,14 +64,21 @@ def expected : List (String × String × Store × String) := [
     regenerated record, so that a guard deleted or changed in the code cannot excuse itself. -/
 def specHandler (module name : String) : Handler :=
   match expected.find? (fun e => e.1 == module && e.2.1 == name) with
-  | some e => { module := module, name := name, msgType := "", store := e.2.2.1, role := e.2.2.2, signerField := "",
+  | some e => { module := module, name := name, msgType := "", store := e.2.2.1, role := e.2.2.2, callee := "", signerField := "",
                 getSignersField := "", pre := [], guardTop := true, failReturnsError := true, authCalls := 1 }
-  | none => { module := module, name := name, msgType := "", store := .none, role := "", signerField := "",
+  | none => { module := module, name := name, msgType := "", store := .none, role := "", callee := "", signerField := "",
               getSignersField := "", pre := [], guardTop := false, failReturnsError := false, authCalls := 0 }
+
+/-- the one authorisation function each store is consulted through -/
+def calleeOf : Store → String
+  | .admin => "adminKeeper.IsAdminAccount"
+  | .oracle => "oracleKeeper.IsAdminAccount"
+  | .clpWhitelist => "clpKeeper.ValidateAddress"
+  | _ => ""
 
 /-- what the table demands of a handler that contains an authorisation call -/
 def rowOK (h : Handler) : Bool :=
-  guardFirst h && h.failReturnsError && h.store != .unknown &&
+  guardFirst h && h.failReturnsError && h.store != .unknown && h.callee == calleeOf h.store &&
   h.signerField != "" && h.signerField != "?" && h.signerField == h.getSignersField
 
 end Sif.Spec.C08
